@@ -3,6 +3,7 @@ CONSTANTS
   Orders <- OrdersAll
   Dts <- DtsP
   Targets <- TargQ
+  TsTargets <- TargQ
   MaxTs = 1
   PublicQueue = TRUE
   LeftRenormSite = 0
